@@ -306,7 +306,48 @@ func runC11(c C11Case) (c11Run, error) {
 	return r, askAgain()
 }
 
+// c11Storm: c.MaxDurMs evaluations of the ladder under limits of 100-300 microseconds. Every
+// evaluation either reports an error or has walked the whole ladder; "success" over a part of it
+// is a violation whatever the timing was.
+func c11Storm(c C11Case, rec *obs.Recorder) *obs.Violation {
+	rec.Label("class:storm")
+	want := len(c.Rules) + 1
+	timeouts, complete := 0, 0
+	for i := 0; i < c.MaxDurMs; i++ {
+		syms := &datalog.SymbolTable{}
+		w := datalog.NewWorld(datalog.WithMaxFacts(c.MaxFacts), datalog.WithMaxIterations(c.MaxIter),
+			datalog.WithMaxDuration(time.Duration(100+(i%5)*50)*time.Microsecond))
+		for _, f := range c.Facts {
+			w.AddFact(datalog.Fact{Predicate: bridge.DLPred(f, syms)})
+		}
+		for _, rl := range c.Rules {
+			w.AddRule(bridge.DLRule(rl, syms))
+		}
+		err := w.Run(syms)
+		switch {
+		case err == nil && len(*w.Facts()) != want:
+			return obs.ViolK("storm", "ladder of %d rules, evaluation %d of %d under a limit of %d microseconds: Run returned nil with %d of %d facts (a timed-out evaluation reported as success)", len(c.Rules), i+1, c.MaxDurMs, 100+(i%5)*50, len(*w.Facts()), want)
+		case err == nil:
+			complete++
+		case errors.Is(err, datalog.ErrWorldRunLimitTimeout):
+			timeouts++
+		default:
+			return obs.Violf("ladder of %d rules under a time limit only: unexpected error %v", len(c.Rules), err)
+		}
+	}
+	rec.EvalN(c.MaxDurMs - 1)
+	rec.Count("storm_evaluations", c.MaxDurMs)
+	rec.Count("storm_timeouts", timeouts)
+	if timeouts > 0 && rec.NonTrivial(fmt.Sprintf("storm|%d|%d", len(c.Rules), c.MaxDurMs)) {
+		rec.Sample(map[string]any{"case": fmt.Sprintf("ladder of %d rules evaluated %d times under 100-300 microseconds", len(c.Rules), c.MaxDurMs), "timeouts": timeouts, "complete": complete})
+	}
+	return nil
+}
+
 func checkC11(c C11Case, rec *obs.Recorder) *obs.Violation {
+	if c.Class == "storm" {
+		return c11Storm(c, rec)
+	}
 	var want ref.LFPResult
 	if c.Class == "heavy" {
 		// by construction nothing is derivable (the last body predicate has no fact); the
@@ -503,6 +544,23 @@ func drawC11(t *rapid.T) C11Case {
 	c.Place = rapid.SampledFrom([]string{"authority", "authorizer", "block"}).Draw(t, "place")
 	x, y, z := m.Var("x"), m.Var("y"), m.Var("z")
 	switch cls := spreadInt(t, "class", 22); {
+	case rapid.IntRange(0, 24).Draw(t, "storm") == 7:
+		// many evaluations of one ladder of cheap rules under a limit of a few hundred microseconds:
+		// most of them end at the deadline, somewhere between two rule applications
+		c.Class = "storm"
+		c.Entry = "world"
+		k := rapid.IntRange(40, 90).Draw(t, "storm.k")
+		c.Facts = []m.Pred{m.P("l0", m.Int(1))}
+		for i := 0; i < k; i++ {
+			c.Rules = append(c.Rules, m.Rule{Head: m.P(fmt.Sprintf("l%d", i+1), x), Body: []m.Pred{m.P(fmt.Sprintf("l%d", i), x)}})
+		}
+		// rules listed consumer-first: one ladder step per iteration
+		for i, j := 0, len(c.Rules)-1; i < j; i, j = i+1, j-1 {
+			c.Rules[i], c.Rules[j] = c.Rules[j], c.Rules[i]
+		}
+		c.MaxFacts, c.MaxIter = 100000, 100000
+		c.MaxDurMs = rapid.IntRange(400, 700).Draw(t, "storm.evals") // number of evaluations of the storm
+		return c
 	case rapid.IntRange(0, 19).Draw(t, "heavy") == 13:
 		n := calibrateHeavy()
 		c2 := heavyCase(n)
@@ -627,7 +685,7 @@ func drawC11(t *rapid.T) C11Case {
 func TestC11(t *testing.T) {
 	rec := obs.New("C11")
 	defer rec.Flush(true)
-	rec.SetExtra("rule", "rapid program classes with reference size and round numbers: small typed programs; blow-up (cross products, transitive closure over a chain up to 14); heavy joins (a 5-predicate body over a calibrated number of facts with no match, about 1.5 s in full) under 1 ms / 20 ms; ill-formed rules (unbound head variable with 1-4 matching bindings; expression error; a rule that mixes both, with expressions that pass on some bindings and raise division-by-zero / overflow errors on others, facts in drawn order); derivation ladders l0->l1->...->lk (k 3-7) with their rules in a drawn order; limit configurations drawn around the reference numbers (generous / fact limit below the fixpoint / iteration limit below the need / arbitrary); delivered through datalog.NewWorld, NewVerifier, Authorizer(root, opts...), AuthorizerFor(src, opts...), with the program in the authority block, the authorizer or a later block, evaluated by Authorize or (program in the authorizer, half of the cases) by Query, after which the whole model is read back with one query per predicate and compared with the reference fixpoint; in a third of the token-level cases the authorizer is used and Reset before the content is added (limits must survive Reset). Oracle: Run==nil implies facts == reference fixpoint and no limit exceeded; after an error, a second Query on the same authorizer with nothing added returns the error again or succeeds over exactly the reference fixpoint; fixpoint larger than maxFacts / needing >= maxIterations+2 rounds implies the matching sentinel (errors.Is); heavy program under a tiny duration implies the timeout sentinel; a program clearly within all limits gets no limit error; Authorize fails with the sentinel through every entry point; after return, no goroutine with a datalog frame stays parked in a channel send while no datalog goroutine can run (3 equal samples). Non-trivial = a limit is exceeded, or an early-exit path is taken, or options travel through a token-level entry point; distinct by case.")
+	rec.SetExtra("rule", "rapid program classes with reference size and round numbers: small typed programs; blow-up (cross products, transitive closure over a chain up to 14); heavy joins (a 5-predicate body over a calibrated number of facts with no match, about 1.5 s in full) under 1 ms / 20 ms; ill-formed rules (unbound head variable with 1-4 matching bindings; expression error; a rule that mixes both, with expressions that pass on some bindings and raise division-by-zero / overflow errors on others, facts in drawn order); derivation ladders l0->l1->...->lk (k 3-7) with their rules in a drawn order; storms (400-700 evaluations of a ladder of 40-90 cheap rules under 100-300 microseconds: an error, or the whole ladder); limit configurations drawn around the reference numbers (generous / fact limit below the fixpoint / iteration limit below the need / arbitrary); delivered through datalog.NewWorld, NewVerifier, Authorizer(root, opts...), AuthorizerFor(src, opts...), with the program in the authority block, the authorizer or a later block, evaluated by Authorize or (program in the authorizer, half of the cases) by Query, after which the whole model is read back with one query per predicate and compared with the reference fixpoint; in a third of the token-level cases the authorizer is used and Reset before the content is added (limits must survive Reset). Oracle: Run==nil implies facts == reference fixpoint and no limit exceeded; after an error, a second Query on the same authorizer with nothing added returns the error again or succeeds over exactly the reference fixpoint; fixpoint larger than maxFacts / needing >= maxIterations+2 rounds implies the matching sentinel (errors.Is); heavy program under a tiny duration implies the timeout sentinel; a program clearly within all limits gets no limit error; Authorize fails with the sentinel through every entry point; after return, no goroutine with a datalog frame stays parked in a channel send while no datalog goroutine can run (3 equal samples). Non-trivial = a limit is exceeded, or an early-exit path is taken, or options travel through a token-level entry point; distinct by case.")
 	rec.SetExtra("assumptions", []string{"the exact boundary (==) of the limits is not asserted", "liveness ('never blocked forever') is decided through the safety proxy of a quiescent parked sender", "a single late return is inconclusive; three in a row are a violation"})
 	harness.RunWith(t, harness.Spec[C11Case]{ID: "C11", Draw: drawC11, Check: checkC11}, rec)
 }
